@@ -692,11 +692,31 @@ def mode_stress(data):
             with CM(n):
                 n += helper(n)
             n += helper(n)
+            # frames owned by a generator / a coroutine on the racing thread's stack, entered, suspended and resumed
+            for v in gen_part(n):
+                n += v
+            c = coro_part(n)
+            try:
+                while True:
+                    c.send(None)
+            except StopIteration as e:
+                n += e.value
 
     def helper(n):
         with CM(n):
             return 1
-    own.update([spin.__code__, helper.__code__, CM.__init__.__code__, CM.__enter__.__code__, CM.__exit__.__code__])
+
+    def gen_part(n):
+        with CM(n):
+            yield helper(n)
+            yield helper(n)
+
+    async def coro_part(n):
+        with CM(n):
+            await _trace_trap()
+            return helper(n)
+    own.update([spin.__code__, helper.__code__, CM.__init__.__code__, CM.__enter__.__code__, CM.__exit__.__code__,
+                gen_part.__code__, coro_part.__code__, _trace_trap.__code__])
     t = threading.Thread(target=spin, daemon=True)
     t.start()
     out = {"extractions": 0, "bad": [], "with_error": 0, "nonempty": 0}
